@@ -66,6 +66,26 @@ NumVectors == UNION { { <<p \o n>>, <<p, n>> } \cup
                       : p \in {T_dr, T_ds}, n \in AllNumbers }
 VectorsOfLen(n) == [1..n -> Tokens]
 
+\* ---- the clock as an input of parsing.  Readings (decimal text of the millisecond clock) where a derivation of a seed from it can go
+\* wrong: zero, one, the 31 / 32-bit edges, multiples of 2^32 and their neighbours, a present-day epoch reading, the largest 64-bit value;
+\* and the vectors whose meaning involves the clock or must not: a seedless -s alone, before and after one other token, before and after
+\* a seeded -s; the seeded forms
+ClockText(n) == CASE n = "1" -> <<49>>
+                  [] n = "2^33" -> <<56, 53, 56, 57, 57, 51, 52, 53, 57, 50>>
+                  [] n = "3*2^32" -> <<49, 50, 56, 56, 52, 57, 48, 49, 56, 56, 56>>
+                  [] n = "epoch" -> <<49, 55, 57, 48, 57, 56, 53, 56, 48, 49, 50, 54, 57>>
+                  [] n = "2^64-1" -> <<49, 56, 52, 52, 54, 55, 52, 52, 48, 55, 51, 55, 48, 57, 53, 53, 49, 54, 49, 53>>
+                  [] OTHER -> NumText(n)
+ClockNames == {"0", "1", "12", "2^31", "2^32-1", "2^32", "2^32+5", "2^33", "3*2^32", "epoch", "99999999999", "2^64-1"}
+Clocks == { ClockText(n) : n \in ClockNames }
+ASSUME \A c \in Clocks : IsDigits(c)
+SeededForms == { <<T_ds \o <<55>>>>, <<T_ds, <<55>>>> }
+ClockFollow == NumFollow \cup {T_dvv, T_dc, T_dlg, T_dr \o <<51>>}
+ClockVectors == {<<T_ds>>} \cup SeededForms
+                \cup UNION { { <<T_ds, t>>, <<t, T_ds>> } : t \in ClockFollow }
+                \cup UNION { { s \o <<T_ds>>, <<T_ds>> \o s } : s \in SeededForms }
+ClockRows == { [tok |-> v, clock |-> c] : v \in ClockVectors, c \in Clocks }
+
 \* ---- the substring meaning of the filters: words.  Filter texts and test group / name words are ALL non-empty words of up to
 \* n letters over the group (name) letters, so every way a text can lie in a name is present: at the start, in the middle, at
 \* the end, twice, overlapping itself, and behind a partial occurrence of itself (text "AAB" in group "AAAB").
